@@ -79,8 +79,12 @@ func (ch *ConnectionHandler) acceptStream() {
 			log.Debugf("Stream closed, existing loop.")
 			return
 		} else if err != nil {
-			log.WithError(err).Errorf("Error accepting stream: %v", err)
-			continue
+			// No accept deadline is set, so the multiplexer reports an error here only once the session is dead
+			// (carrier failure, protocol violation by the peer, keep-alive timeout) and it keeps reporting the same
+			// error on every call: retrying would spin forever.
+			log.WithError(err).Errorf("Error accepting stream, ending the session: %v", err)
+			streams.TryClose(ch.session)
+			return
 		}
 		stream = streams.NewNamedConnection(stream, stream.RemoteAddr().String())
 		log.Debugf("[Server] New logical connection accepted: %v", stream)
